@@ -28,10 +28,21 @@ pub struct Findings {
 
 impl Findings {
     pub fn load() -> Self {
-        let p = format!("{VERIF_ROOT}/known_findings.json");
         let mut all = Vec::new();
-        if let Ok(s) = std::fs::read_to_string(&p) {
-            let v: Value = serde_json::from_str(&s).expect("known_findings.json must be valid JSON");
+        let mut files = vec![format!("{VERIF_ROOT}/known_findings.json")];
+        // per-property staging files (merged into known_findings.json at integration time)
+        if let Ok(rd) = std::fs::read_dir(format!("{VERIF_ROOT}/known_findings.d")) {
+            let mut extra: Vec<String> = rd
+                .filter_map(|e| e.ok())
+                .map(|e| e.path().display().to_string())
+                .filter(|p| p.ends_with(".json"))
+                .collect();
+            extra.sort();
+            files.extend(extra);
+        }
+        for p in files {
+            let Ok(s) = std::fs::read_to_string(&p) else { continue };
+            let v: Value = serde_json::from_str(&s).unwrap_or_else(|e| panic!("{p} must be valid JSON: {e}"));
             for e in v["findings"].as_array().cloned().unwrap_or_default() {
                 all.push(Finding {
                     id: e["id"].as_str().unwrap_or("").to_string(),
